@@ -179,6 +179,27 @@ def run_cases(drv, cases, sc, tag, nshards=None):
         return list(ex.map(one, items))
 
 
+def level0_area_lengths():
+    """level-0 headers whose extended area (the bytes between the CRC field and the end of the header) has every length 0..26, for each
+    kind of area the library knows (Unix 'U', OS-9/68K 'K', OS-9 '9' with its marker byte and repeated permission field in place, and an
+    unknown kind): the area decoders index fixed offsets, so each length is a boundary for one of them.  The header ends exactly where the
+    area ends and nothing but the member's data follows."""
+    out = []
+    pw = b"\xa4\x01"
+    full = {ord("U"): b"U\0" + struct.pack("<I", 1000000000) + struct.pack("<HHH", 0o100644, 1000, 100) + bytes(14),
+            ord("K"): b"K\0" + struct.pack("<I", 1000000000) + struct.pack("<HHH", 0o100644, 1000, 100) + bytes(14),
+            ord("9"): b"9" + pw + bytes(6) + b"\xcc" + bytes(7) + pw + bytes(3) + bytes(4),
+            ord("x"): b"x" + bytes(range(1, 26))}
+    for mk, tmpl in full.items():
+        for n in range(0, 27):
+            for meth in (b"-lh0-", b"-lz4-", b"-pm0-"):
+                if meth != b"-lh0-" and n not in (0, 12, 18, 22):
+                    continue
+                m = arc.Member(level=0, method=meth, name=b"AREA.TXT", payload=b"data", time=arc.dos_time(2012, 3, 4, 5, 6, 8), l0ext=tmpl[:n])
+                out.append(m.bytes())
+    return out
+
+
 def identity_cross_product():
     """what an entry is and what it is called, combined: OS type x method x recorded length x file name header present x path header
     present x kind of permissions x level.  The rules about entries without a name or a path, the Amiga directory quirk (-lh0-, length 0,
